@@ -6,32 +6,32 @@ TB = ("Coq 8.16.1 kernel incl. vm_compute; hand model coq/Model tied to /repo by
       "translators tools/tr_*.py; floating point, numpy broadcasting and the sparse solver are not modelled; axioms per theorem are "
       "listed in the evidence file from Print Assumptions")
 CLAIMS = {
- "C01": ("Generic-field theorems: every flux-form term (divergence, diffusion, central, upwind, TVD) changes the cellvolume-weighted sum only "
+ "C01": ("Tie also symbolic: the relevant builders are traced on symbolic inputs and every traced entry is proved equal to the model's coefficient for all values (DESIGN 2.7). Generic-field theorems: every flux-form term (divergence, diffusion, central, upwind, TVD) changes the cellvolume-weighted sum only "
          "through boundary faces, for every class (S3: midpoint measure), N, spacing, coefficients (Props/C01.v); model tied to all per-class "
          "builders by 8 suites; direct conservation probes on the real code", "DESIGN.md 3, 4 (C01)"),
- "C05": ("Theorems: matrix stencils = divergence of the explicit gradient/mean flux, cell by cell, all classes; TVD zero/unit-limiter identities "
+ "C05": ("Tie also symbolic: the relevant builders are traced on symbolic inputs and every traced entry is proved equal to the model's coefficient for all values (DESIGN 2.7). Theorems: matrix stencils = divergence of the explicit gradient/mean flux, cell by cell, all classes; TVD zero/unit-limiter identities "
          "(Props/C05.v); 7 correspondence suites; identity probes on the real code; zero-u_upwind edge is a known finding (refuted theorem)", "DESIGN.md 3, 4 (C05)"),
- "C06": ("Theorems: diffusion of a constant is 0, central/upwind/TVD of a constant c is c*div(u) (Props/C06.v); suites + probes incl. sources-only solve", "DESIGN.md 4 (C06)"),
- "C02": ("PARTIAL: proved are the two halves of the Lax argument separately, not the Taylor remainder bound. Stability, every class and dimension, non-uniform spacing included (over R): the discrete solution is within max|truncation error| / min(alpha/dt+beta) of any field satisfying the rows up to that error (comparison principle; D>=0, upwind with divergence-free u; Dirichlet / no-flux / one-signed Robin / periodic closures). Consistency (generic field): on uniform spacing the diffusion and central-advection stencils "
+ "C06": ("Tie also symbolic: the relevant builders are traced on symbolic inputs and every traced entry is proved equal to the model's coefficient for all values (DESIGN 2.7). Theorems: diffusion of a constant is 0, central/upwind/TVD of a constant c is c*div(u) (Props/C06.v); suites + probes incl. sources-only solve", "DESIGN.md 4 (C06)"),
+ "C02": ("Tie also symbolic: the relevant builders are traced on symbolic inputs and every traced entry is proved equal to the model's coefficient for all values (DESIGN 2.7). PARTIAL: proved are the two halves of the Lax argument separately, not the Taylor remainder bound. Stability, every class and dimension, non-uniform spacing included (over R): the discrete solution is within max|truncation error| / min(alpha/dt+beta) of any field satisfying the rows up to that error (comparison principle; D>=0, upwind with divergence-free u; Dirichlet / no-flux / one-signed Robin / periodic closures). Consistency (generic field): on uniform spacing the diffusion and central-advection stencils "
          "reproduce the continuous operator exactly on polynomial families separating every metric factor (Cartesian, cylindrical r incl. the axis cell, "
          "SphericalGrid1D exact-volume r, angular 1/r^2), SphericalGrid3D radial block with its exact O(h^2) remainder (Props/C02.v); the model is tied to every "
          "builder by the operator/bc/solve suites; manufactured-solution refinement on the implementation (9 classes x central/upwind x Dirichlet/Robin x "
          "uniform/graded, 3 resolutions, observed order)", "DESIGN.md 4 (C02)"),
- "C03": ("Theorems: stored boundary values (with_boundaries) satisfy a/h*(difference)+b*(average)=c face by face incl. 1/r, 1/(r sin theta); the solver's "
+ "C03": ("Tie also symbolic: the relevant builders are traced on symbolic inputs and every traced entry is proved equal to the model's coefficient for all values (DESIGN 2.7). Theorems: stored boundary values (with_boundaries) satisfy a/h*(difference)+b*(average)=c face by face incl. 1/r, 1/(r sin theta); the solver's "
          "boundary rows encode the same relation; (a,b,c) scale invariance; periodic wrap and the exact residual of the solver's periodic rows "
          "(Props/C03.v); suites bc_ghost, bc_rows, solve, explicit on all classes; Robin-residual probes after the four operations; periodic axis "
          "with unequal end cells is a known finding", "DESIGN.md 4 (C03)"),
- "C04": ("Theorems over every solution of the assembled system: term order irrelevant, linear in the unknown, superposition in sources/boundary "
+ "C04": ("Tie also symbolic: the relevant builders are traced on symbolic inputs and every traced entry is proved equal to the model's coefficient for all values (DESIGN 2.7). Theorems over every solution of the assembled system: term order irrelevant, linear in the unknown, superposition in sources/boundary "
          "data/old values, terms never enter boundary rows (Props/C04.v); the solve suite evaluates the residual of the MODEL system inside Coq at "
          "the real solver's answer for random term lists; probes: identity of the returned object, external solver receives the identical system, "
          "solveMatrixPDE agreement, per-cell source/transient coefficients against a cell-by-cell assembly; uniqueness of the solution of C07-type systems over R (all closures)", "DESIGN.md 4 (C04)"),
- "C07": ("Theorems over R: every solution of a system whose rows are convex combinations plus sink stays within [min(data,0), max(data,0)] (within the data "
+ "C07": ("Tie also symbolic: the relevant builders are traced on symbolic inputs and every traced entry is proved equal to the model's coefficient for all values (DESIGN 2.7). Theorems over R: every solution of a system whose rows are convex combinations plus sink stays within [min(data,0), max(data,0)] (within the data "
          "range without sink), non-negativity; sign structure of the diffusion and upwind stencils and row sum = div(u); per axis, -diffusion + upwind has "
          "exactly the convex row shape; and ON THE MODEL for every class and dimension: every solution of the transient/-diffusion/upwind(div-free)/sink "
          "system lies between min and max of previous values, boundary data and 0 (flux form + argmax over the finite set of unknowns; ghost hypothesis from "
          "Dirichlet / no-flux rows) (Props/C07.v). The underlying comparison principle (C07_comparison) includes periodic neighbours and has a concrete non-vacuity instance over R; the ghost hypothesis is discharged per boundary kind. Probe: multi-step solves with D contrast 1e8, divergence-free u on every class, dt over 8 decades, Dirichlet/no-flux/periodic; overshoots "
          "confirmed by exact rational re-solve", "DESIGN.md 4 (C07)"),
- "C08": ("Theorems (generic field): on a field that does not vary along an axis the block of that axis of diffusion is 0 and of central/upwind advection is "
+ "C08": ("Tie also symbolic: the relevant builders are traced on symbolic inputs and every traced entry is proved equal to the model's coefficient for all values (DESIGN 2.7). Theorems (generic field): on a field that does not vary along an axis the block of that axis of diffusion is 0 and of central/upwind advection is "
          "value*div(u), 0 for invariant velocity (Props/C08.v); model symmetric under axis relabelling/mirroring by construction (one per-axis stencil); per-axis "
          "correspondence (Mx,My,Mz) of every builder; probes: 7 embedding pairs, Cartesian permutations, mirrors, periodic shifts on the implementation; "
          "upwind/TVD along a periodic axis is a known finding", "DESIGN.md 4 (C08)"),
@@ -44,7 +44,7 @@ CLAIMS = {
          "Cartesian sums telescope to the domain size (generic field); over R: positivity, SphericalGrid1D volume = full shell, SphericalGrid3D volume "
          "REFUTED (known finding, pinned by a test); labels by finite enumeration over tables regenerated from face.py/mesh.py (Props/C10.v); mesh suite; "
          "per-cell geometric-volume and label probes", "DESIGN.md 4 (C10)"),
- "C11": ("Theorems: constants, linear exactness on any spacing, donor-cell rule (generic field); over R: every mean lies between its two neighbours and "
+ "C11": ("Tie also symbolic: the relevant builders are traced on symbolic inputs and every traced entry is proved equal to the model's coefficient for all values (DESIGN 2.7). Theorems: constants, linear exactness on any spacing, donor-cell rule (generic field); over R: every mean lies between its two neighbours and "
          "harmonic <= geometric <= arithmetic with the same width weights (weighted AM-GM from 1+x<=exp x) (Props/C11.v); means suite on all classes incl. "
          "zeros; probes incl. geometricMean closed form and a donor-cell reference for upwindMean", "DESIGN.md 4 (C11)"),
  "C14": ("Storage-level model Model/Algebra.v; theorems by induction over expression trees of any depth: no operator writes a pre-existing array, results "
@@ -58,12 +58,12 @@ CLAIMS = {
  "C16": ("Finite enumerations (proofs by computation over finite domains, lifted with forallb_forall / case analysis) over tables REGENERATED from the source: "
          "6 labels x 9 classes x get/set (+CellProp), periodic flags on radial boundaries raise ValueError and no other flag does, the term-kind chain of "
          "solvePDE yields TypeError exactly for non-conforming terms (Props/C16.v); every table row plus shapes, arities 0..7 and BoundaryFace types is executed on the implementation", "DESIGN.md 4 (C16)"),
- "C17": ("Theorems: under a change of the length unit every diffusion/central/upwind stencil coefficient of the rescaled problem is 1/T times the original, "
+ "C17": ("Tie also symbolic: the relevant builders are traced on symbolic inputs and every traced entry is proved equal to the model's coefficient for all values (DESIGN 2.7). Theorems: under a change of the length unit every diffusion/central/upwind stencil coefficient of the rescaled problem is 1/T times the original, "
          "boundary a/h unchanged, ghost values scale with K, linearity in coefficient fields; and at solution level: if x solves the system of (mesh, bc, terms) "
          "then K*x solves the system of the rescaled data, for every class and term list incl. periodic and corner rows (C17_solution_scales, Props/C17.v). "
          "TVD vectors enter as data scaled K/T (the code's TVD vector scales so except below _fsign's absolute threshold: exercised, not proved). Probe: "
          "two unit systems over +-6 decades, also with D = harmonicMean(k); homogeneity of the means", "DESIGN.md 4 (C17)"),
- "C12": ("Theorems: backward-Euler row identity, steady <-> fixed point for every dt and alpha, increment identity behind dt->0/inf, explicit step "
+ "C12": ("Tie also symbolic: the relevant builders are traced on symbolic inputs and every traced entry is proved equal to the model's coefficient for all values (DESIGN 2.7). Theorems: backward-Euler row identity, steady <-> fixed point for every dt and alpha, increment identity behind dt->0/inf, explicit step "
          "definition; over R on every class and dimension (diffusion D>=0, upwind with divergence-free u, sink): |step - steady| <= W*A/(A+dt*B) (beta>=B>0), |step - old| <= dt*P/a0, |implicit - explicit| <= dt^2*Q/a0, and the epsilon-forms of both limits (Props/C12.v). Not covered by theorems: dt->inf with beta = 0, central advection. Suites solve/explicit; dt sweeps over 12 decades, multi-step and explicit update_value loops on the real code", "DESIGN.md 4 (C12)"),
  "C13": ("Theorems about the limiter definitions REGENERATED from utilities.fluxLimiter / advection._fsign on every run (published closed form "
          "for every real r, all denominators non-zero, psi(1)=1, 0<=psi<=min(2r,4), clipping, fallback, _fsign never 0), translator sanity at Qc "
